@@ -500,6 +500,72 @@ def real_row(e, text):
     return row
 
 
+def _sre_eq(a, b):
+    return _re.fullmatch(_re.escape(a), b, _re.I) is not None
+
+
+def cc_of(chars):
+    """Python's classification of the non-ASCII characters (same wire format as for Drivers/Re.lean, cf. c21.cc_of):
+    digits, other word characters, spaces, and fold = representative of the re.IGNORECASE equivalence class"""
+    d, w, s, f = [], [], [], []
+    chars = sorted(set(chars))
+    for ch in chars:
+        if ord(ch) < 128:
+            continue
+        if _re.match(r"\d", ch):
+            d.append(ord(ch))
+        elif _re.match(r"\w", ch):
+            w.append(ord(ch))
+        if _re.match(r"\s", ch):
+            s.append(ord(ch))
+        cands = [c for c in (ch.lower(), ch.upper(), ch) if len(c) == 1]
+        cls = sorted({c for c in chars + cands + list("abcdefghijklmnopqrstuvwxyz") if len(c) == 1 and _sre_eq(ch, c)}
+                     | {ch})
+        asc = [c for c in cls if ord(c) < 128]
+        rep = asc[0].lower() if asc else cls[0]
+        if rep != ch:
+            f.append([ord(ch), ord(rep)])
+    return {"d": d, "w": w, "s": s, "f": f}
+
+
+def parse_only(mm, objs, text):
+    """the real parse of one text with another meta-model of the same grammar (node ids by position in its own model)"""
+    use_repo()
+    from arpeggio import NoMatch
+    from textx.exceptions import TextXSyntaxError
+
+    ids = {id(o): i for i, o in enumerate(objs)}
+    eof_ids = [i for i, o in enumerate(objs) if type(o).__name__ == "EndOfFile"]
+    parser = mm._parser_blueprint.clone()
+
+    def go():
+        try:
+            tree = parser.parse(text)
+        except TextXSyntaxError as e:
+            return {"nomatch": getattr(e.__cause__, "position", None)}
+        except NoMatch as e:
+            return {"nomatch": e.position}
+        except RecursionError:
+            return {"other": "RecursionError"}
+        except Exception as e:
+            return {"other": type(e).__name__, "msg": str(e)[:200]}
+        tj = peg.tree_json(tree, ids)
+
+        def fix(t):
+            if t and t[0] == "t":
+                if t[1] == -1 and t[3] == 0 and eof_ids:
+                    t[1] = eof_ids[0]
+            elif t and t[0] in ("n", "l"):
+                for c in t[-1]:
+                    fix(c)
+
+        fix(tj)
+        return {"ok": tj}
+
+    r = limited(go, 5)
+    return r if r is not None else {"other": "Timeout"}
+
+
 def base_objs():
     use_repo()
     import textx.lang as L
@@ -578,7 +644,8 @@ def tok_specs(nodes, objs):
         if nd["k"] == "str":
             out.append({"k": "str", "lit": e.to_match, "ic": bool(e.ignore_case)})
         elif nd["k"] == "re":
-            out.append({"k": "kw", "lit": e.to_match} if match_kind(e) == "kw" else {"k": "re"})
+            out.append({"k": "kw", "lit": e.to_match, "ic": bool(e.regex.flags & _re.IGNORECASE)}
+                       if match_kind(e) == "kw" else {"k": "re"})
         else:
             out.append({"k": "other"})
     return out
@@ -1006,6 +1073,16 @@ class Prop(Check):
         "Peg.Case.C20_full_false",
         "Peg.parse_congr",
         "Peg.run_congr",
+        "Peg.Case.C20_engine_foldInv",
+        "Peg.Case.C20_kwRe_foldInv",
+        "Peg.Case.C20_kwRe_foldInv_pyMatch",
+        "Peg.Case.C20_engine_terminals",
+        "Peg.Case.C20_partial_engine",
+        "Peg.Case.C20_compiled_allIc",
+        "Peg.Case.C20_basetypes_ascii",
+        "Re.m_fold",
+        "Re.pyMatch_fold",
+        "Peg.run_congrK",
     ]
     DRIVER = "Drivers/Case.lean"
     QUICK_CASES = 420
@@ -1192,6 +1269,26 @@ class Prop(Check):
                 finally:
                     B.regex = old
             res["groups"].append(grp)
+        # C21 in the mirror: the same grammar with autokwd=False, constructed after everything else of the case (so
+        # the observations above are those of the listed history); its parser model is what `Lang.autokwd` starts from
+        if mirror and cfg.get("autokwd") and not res.get("aborted"):
+            o2 = build_mm(case["grammar"], case.get("files"), dict(cfg, autokwd=False), tmp)
+            if "ok" in o2:
+                try:
+                    n2, top2, c2, objs2 = dump_parser20(o2["ok"]._parser_blueprint.clone())
+                    if top2 == res["top"] and c2 == res["comments"]:
+                        res["off"] = {"nodes": n2, "toks": tok_specs(n2, objs2)}
+                        for grp in res["groups"]:
+                            for d in [grp["x"]] + grp["ys"]:
+                                if time.time() > deadline:
+                                    break
+                                d["parse_off"] = parse_only(o2["ok"], objs2, d["text"])
+                    else:
+                        res["off_error"] = "top / comments index differs"
+                except peg.Unsupported as e:
+                    res["off_error"] = str(e)
+            else:
+                res["off_error"] = "grammar error without autokwd"
         return res
 
     # ---- model ------------------------------------------------------------------
@@ -1217,6 +1314,12 @@ class Prop(Check):
                 "memo": obs["memo"], "skipws": obs["skipws"], "ws": obs["ws"], "toks": obs["toks"], "tab": tab,
                 "lits": case.get("lits", []), "cfg": self._cfgj(case["cfg"]),
                 "history": self._sides(case, "history"), "later": self._sides(case, "later")}
+        chars = set(extra)
+        for t in obs["toks"]:
+            chars.update(t.get("lit", ""))
+        base["cc"] = cc_of(chars)
+        if obs.get("off"):
+            base["off"] = obs["off"]
         reqs = []
         for grp in obs["groups"]:
             inputs = []
@@ -1258,6 +1361,29 @@ class Prop(Check):
                     if row != d["rows"][i]:
                         return (f"text {d['text']!r}: StrMatch {obs['toks'][i]} rows differ: real {d['rows'][i]} vs "
                                 f"model {row}")
+                # keyword matches: the row the Lean regex engine computes for `lit\\b` (what C20_kwRe_foldInv and
+                # C21_same_run are about) is the row of the real compiled regex object
+                for i, row in m.get("kwrows", []):
+                    if row != d["rows"][i]:
+                        return (f"text {d['text']!r}: KeywordMatch {obs['toks'][i]} rows differ: real {d['rows'][i]} vs "
+                                f"Lean regex engine {row}")
+            # autokwd in the mirror: `Lang.autokwd` of the parser model built without autokwd is the parser model under
+            # test; on inputs without a glued keyword the two real parses agree (C21_same_run)
+            if obs.get("off"):
+                akw = o.get("akw")
+                if not akw:
+                    return "no autokwd answer from the model"
+                if not akw["model"]:
+                    return "Lang.autokwd of the parser model built with autokwd=False is not the parser model under test"
+                for j, d in enumerate(ds):
+                    if "parse_off" not in d or "Timeout" in (d["parse"].get("other"), d["parse_off"].get("other")):
+                        continue
+                    if akw["uniform"] and akw["nogl"][j]:
+                        if not akw["same"][j]:
+                            return f"text {d['text']!r}: C21_same_run hypotheses hold but the two model runs differ"
+                        if d["parse_off"] != d["parse"]:
+                            return (f"text {d['text']!r}: no glued keyword, but the real parses with / without autokwd "
+                                    f"differ: {str(d['parse'])[:200]} vs {str(d['parse_off'])[:200]}")
             # the stated assumption RxFoldInv, on the real `re` objects: every regex token except the known
             # case-sensitive base type BOOL has the same row on a text and on each of its case variants
             if case["cfg"].get("ignore_case"):
@@ -1395,6 +1521,14 @@ class Prop(Check):
                                          if sum(1 for d in g["ys"] if not d["wild"]) in (1, 3, 7, 15, 31, 63)),
                 "streams": {s: sum(1 for c in cases if c.get("stream") == s) for s in ("random", "simple", "link", "corpus")},
                 "autokwd_cases": sum(1 for c in cases if c["cfg"].get("autokwd")),
+                "autokwd_off_models": sum(1 for o in obs if o.get("off")),
+                "autokwd_off_errors": sorted({o["off_error"] for o in obs if o.get("off_error")})[:5],
+                "texts_parsed_with_and_without_autokwd": sum(1 for g in groups for d in [g["x"]] + g["ys"]
+                                                             if "parse_off" in d),
+                "texts_without_glued_keyword": sum(sum(1 for b in (o2.get("akw") or {}).get("nogl", []) if b)
+                                                   for o in outs if o for o2 in o.get("outs", [])),
+                "engine_keyword_rows": sum(len(m.get("kwrows", [])) for o in outs if o for o2 in o.get("outs", [])
+                                           for m in o2.get("outs", [])),
                 "ignore_case_off_cases": sum(1 for c in cases if not c["cfg"].get("ignore_case"))}
 
     def shrink(self, case):
